@@ -281,6 +281,27 @@ fn case_pattern(input: &Input, ctx: &mut Ctx) -> CaseResult {
         (Err(false), Err(e)) if e.is_eof() => {}
         _ => viol!("decode_raw_header({}) = {:?}; model {:?}", hex(&hdr), got, model),
     }
+    // the standalone async readers over a transport that is not ready before every byte (and delivers one byte at a time):
+    // the same value, the same number of bytes consumed, the same rejection as from a slice
+    {
+        let steps: Vec<Step> = (0..hdr.len() * 2 + 4).map(|i| if i % 2 == 0 { Step::Pending } else { Step::Chunk(1) }).collect();
+        let mut rd = ScriptedReader::new(&hdr, &steps);
+        let (got2, _) = crate::sio::drive(decode_raw_header(&mut rd), hdr.len() * 3 + 16);
+        let same = match (&got, &got2) {
+            (Ok(a), Ok(b)) => a == b && rd.pos == used,
+            (Err(a), Err(b)) => format!("{:?}", a) == format!("{:?}", b) || (a.is_eof() && b.is_eof()),
+            _ => false,
+        };
+        ensure!(same, "decode_raw_header({}) over a transport that is Pending before every byte returned {:?} after {} bytes; from a slice it returns {:?} after {} bytes", hex(&hdr), got2, rd.pos, got, used);
+        let mut rd3 = ScriptedReader::new(&hdr, &steps);
+        let (h3p, _) = crate::sio::drive(V3::header_decode_async(&mut rd3), hdr.len() * 3 + 16);
+        let mut rd5 = ScriptedReader::new(&hdr, &steps);
+        let (h5p, _) = crate::sio::drive(V5::header_decode_async(&mut rd5), hdr.len() * 3 + 16);
+        let h3s = V3::header_decode(&hdr);
+        let h5s = V5::header_decode(&hdr);
+        ensure!(h3p == h3s || matches!((&h3p, &h3s), (Err(a), Err(b)) if a.is_eof() && b.is_eof()), "v3 Header::decode_async({}) over a transport that is Pending before every byte returned {:?}; Header::decode returns {:?}", hex(&hdr), h3p, h3s);
+        ensure!(h5p == h5s || matches!((&h5p, &h5s), (Err(a), Err(b)) if a.is_eof() && b.is_eof()), "v5 Header::decode_async({}) over a transport that is Pending before every byte returned {:?}; Header::decode returns {:?}", hex(&hdr), h5p, h5s);
+    }
     // the standalone reader over a transport that fails once (Interrupted) before byte j: the error comes back as such;
     // never a value assembled from the wrong bytes, never one byte too many consumed
     if let Ok((_, w)) = &model {
